@@ -93,17 +93,10 @@ where
 
     fn start_send(mut self: Pin<&mut Self>, item: Item) -> Result<(), Self::Error> {
         let mut idx = 0;
-        let len = self.entries.len();
-        while idx < len {
+        // The length is re-read on every iteration: evicting a sink shrinks the vector
+        while idx < self.entries.len() {
             let (_, sink) = self.entries[idx].borrow_mut();
             pin!(sink);
-            if idx == len - 1 {
-                if let Err(e) = sink.start_send(item) {
-                    error!("Evicting broken sink from FanoutMany::start_send with err: {e:?}");
-                    self.entries.swap_remove(idx);
-                }
-                break;
-            };
 
             if let Err(e) = sink.start_send(item.clone()) {
                 error!("Evicting broken sink from FanoutMany::start_send with err: {e:?}");
